@@ -52,3 +52,17 @@ pub proof fn lemma_next_id(dvs: Seq<v1::DecisionVariable>, idb: u64)
     assert(dvs[w].id + 1 == idb);
     assert forall|i: int| 0 <= i < dvs.len() implies (#[trigger] dvs[i]).id < idb by { lemma_dv_ids_mem(dvs, dvs.len() as int, dvs[i].id); }
 }
+// penalty methods: (largest defined id)+1, or 0 when no variable is defined
+pub open spec fn next_or_zero(dvs: Seq<v1::DecisionVariable>, idb: u64) -> bool { if dvs.len() == 0 { idb == 0 } else { is_next_id(dvs, idb) } }
+pub proof fn lemma_next_or_zero(dvs: Seq<v1::DecisionVariable>, idb: u64)
+    requires dvs.len() > 0 ==> (idb >= 1 && dv_ids(dvs, dvs.len() as int).contains((idb - 1) as u64) && forall|y: u64| dv_ids(dvs, dvs.len() as int).contains(y) ==> y <= idb - 1),
+        dvs.len() == 0 ==> idb == 0,
+    ensures next_or_zero(dvs, idb)
+{
+    if dvs.len() > 0 {
+        lemma_dv_ids_mem(dvs, dvs.len() as int, (idb - 1) as u64);
+        let w = choose|i: int| 0 <= i < dvs.len() && (#[trigger] dvs[i]).id == (idb - 1) as u64;
+        assert(dvs[w].id + 1 == idb);
+        assert forall|i: int| 0 <= i < dvs.len() implies (#[trigger] dvs[i]).id < idb by { lemma_dv_ids_mem(dvs, dvs.len() as int, dvs[i].id); }
+    }
+}
